@@ -518,14 +518,17 @@ class HyperscanTokenizer(Tokenizer):
             last_byte_offset = byte_offset
 
         # Narrow down our matches to only those that successfully decoded,
-        # re-run regex against just the matching strings to get match groups
-        # (which aren't provided by hyperscan), and tokenize:
+        # re-run regex against just the matching span to get match groups
+        # (which aren't provided by hyperscan), and tokenize. Match within
+        # the full text rather than against a substring, so that "^" can't
+        # match at the start of the span and let an optional leading space
+        # of the pattern swallow the boundary character:
         for extractor, (start, end) in matches:
             if start in byte_to_str_offset and end in byte_to_str_offset:
                 start = byte_to_str_offset[start]
                 end = byte_to_str_offset[end]
-                m = extractor.compiled_regex.match(text[start:end])
-                yield extractor.get_token(m, offset=start)
+                m = extractor.compiled_regex.match(text, start, end)
+                yield extractor.get_token(m)
 
     @property
     def hyperscan_db(self):
